@@ -133,13 +133,15 @@ def _note(i, size):
     return head + b'x' * max(0, size - len(head) - len(tail)) + tail
 
 def payload(k, msg_size, size=None):
-    """messages of msg_size octets whose total length makes exactly k chunks"""
+    """messages of about msg_size octets whose total length makes exactly k chunks (the last chunk is partly filled)"""
     size = size or buf_size()
     if k == 0: return []
-    n = max(1, (k * size) // msg_size)
-    while chunks_of(n * msg_size, size) > k: n -= 1
-    msgs = [_note(i + 1, msg_size) for i in range(n)]
-    assert chunks_of(sum(map(len, msgs)), size) == k, (k, msg_size)
+    total = (k - 1) * size + (size * 2) // 3 + (msg_size % 97)
+    msgs, left = [], total
+    while left >= msg_size + 200:
+        msgs.append(_note(len(msgs) + 1, msg_size)); left -= msg_size
+    msgs.append(_note(len(msgs) + 1, left))
+    assert sum(map(len, msgs)) == total and chunks_of(total, size) == k, (k, msg_size, total)
     return msgs
 
 def _wait(pred, t=2.0):
